@@ -87,3 +87,5 @@ META = dict(
                 "optimisation levels; MSVC/ARM64/CBMC variants are not observed."),
     technique="runtime monitoring: differential testing of 12 variant x optimisation instances against 128-bit reference arithmetic",
 )
+
+CFG["rule"] += (" " + "Additions: 'literal' compilation context (every 64-bit helper with one operand an integer constant expression from a list of 20, as second and as first operand); stages mt_tsan/mt_rel convert ticks from several threads, each on its own frequency pair, and compare with the single-threaded run.")
